@@ -77,7 +77,7 @@ def expected_rets(case):
                 out.append(["ret", "end"])
             else:
                 a = e1 - b
-                sk, j = take_params(k, a) if ("+nth:" not in k and "+last" not in k) else (0, 0)
+                sk, j = take_params(k, a) if ("+nth:" not in k and "+last" not in k and "+forget" not in k) else (0, 0)
                 if j - sk > 1000000:
                     raise Unsupported("astronomic consumption")
                 offs, j = take_plan(k, a)
